@@ -93,5 +93,54 @@ __CPROVER_ensures(__CPROVER_return_value == 0 ==> (VF_BN_WF(*bn) && (VF_BN_OLDVA
     VF_BN_VAL(*bn) == (VF_BN_OLDVAL(bn) % (VF_BN_VAL(*m) - 1)) + 1)))
 ;
 
+/* ------------------------------------------------------------------ loop functions: safety contracts
+ * (memory safety and frame by the instrumentation; here: return-code set, domain checks,
+ * well-formed result on success, callee errors propagated - the proofs replace every callee by
+ * its contract, so "callee error => same error returned" is checked on all paths) */
+
+/* bn = bn^exp mod m, exponent a machine word: loop over the 64 exponent bits (type-bounded) */
+static inline int
+bn_mod_exp_digit(bn_p bn, size_t exp, bn_p m, bn_mod_rd_data_p mod_rd_data)
+__CPROVER_requires(VF_BN_BINOP_PRE(bn, m) && bn != m)
+__CPROVER_assigns(VF_BN_FRAME(bn))
+__CPROVER_ensures(__CPROVER_return_value == 0 || __CPROVER_return_value == EOVERFLOW || __CPROVER_return_value == EINVAL)
+__CPROVER_ensures((bn->count < m->count || 2 * __CPROVER_old(bn->digits) > bn->count) ==> __CPROVER_return_value == EOVERFLOW)
+__CPROVER_ensures(__CPROVER_return_value == 0 ==> VF_BN_WF(*bn))
+__CPROVER_ensures((__CPROVER_return_value == 0 && exp == 0) ==> VF_BN_VAL(*bn) == 1)
+__CPROVER_ensures((__CPROVER_return_value == 0 && exp == 1) ==> VF_BN_VAL(*bn) == VF_BN_OLDVAL(bn))
+__CPROVER_ensures((__CPROVER_return_value == 0 && exp == 2) ==> VF_BN_VAL(*bn) == (VF_BN_OLDVAL(bn) * VF_BN_OLDVAL(bn)) % VF_BN_VAL(*m))
+;
+/* bn = bn^exp mod m: loop over bn_calc_bits(exp) bits */
+static inline int
+bn_mod_exp(bn_p bn, bn_p exp, bn_p m, bn_mod_rd_data_p mod_rd_data)
+__CPROVER_requires(VF_BN_BINOP_PRE(bn, m) && bn != m && VF_BN_IN(exp) &&
+    !__CPROVER_same_object(exp, bn) && !__CPROVER_same_object(exp, m))
+__CPROVER_assigns(VF_BN_FRAME(bn))
+__CPROVER_ensures(__CPROVER_return_value == 0 || __CPROVER_return_value == EOVERFLOW || __CPROVER_return_value == EINVAL)
+__CPROVER_ensures(bn->count < m->count ==> __CPROVER_return_value == EOVERFLOW)
+__CPROVER_ensures(__CPROVER_return_value == 0 ==> VF_BN_WF(*bn))
+__CPROVER_ensures((__CPROVER_return_value == 0 && exp->digits == 1 && exp->num[0] == 0) ==> VF_BN_VAL(*bn) == 1)
+__CPROVER_ensures((__CPROVER_return_value == 0 && VF_BN_VAL(*exp) == 1) ==> VF_BN_VAL(*bn) == VF_BN_OLDVAL(bn))
+;
+/* bn = bn / d mod m = bn * d^-1 mod m (straight-line over bn_mod_inv and bn_mod_mult) */
+static inline int
+bn_mod_div(bn_p bn, bn_p d, bn_p m, bn_mod_rd_data_p mod_rd_data)
+__CPROVER_requires(VF_BN_3PRE(bn, d, m) && bn != d)
+__CPROVER_assigns(VF_BN_FRAME(bn))
+__CPROVER_ensures(__CPROVER_return_value == 0 || __CPROVER_return_value == EOVERFLOW || __CPROVER_return_value == EINVAL)
+__CPROVER_ensures((VF_BN_OLDVAL(d) == 0 || VF_BN_VAL(*m) == 0 || VF_BN_OLDVAL(d) >= VF_BN_VAL(*m)) ==> __CPROVER_return_value == EINVAL)
+__CPROVER_ensures(__CPROVER_return_value == 0 ==> VF_BN_WF(*bn))
+;
+/* binary modular inverse: domain 0 < bn < m, otherwise EINVAL (the value clause
+ * bn' * bn == 1 (mod m) is not part of the proved contract, see not_covered) */
+static inline int
+bn_mod_inv_bin(bn_p bn, bn_p m, bn_mod_rd_data_p mod_rd_data)
+__CPROVER_requires(VF_BN_BINOP_PRE(bn, m) && bn != m)
+__CPROVER_assigns(VF_BN_FRAME(bn))
+__CPROVER_ensures(__CPROVER_return_value == 0 || __CPROVER_return_value == EOVERFLOW || __CPROVER_return_value == EINVAL)
+__CPROVER_ensures((VF_BN_OLDVAL(bn) == 0 || VF_BN_VAL(*m) == 0 || VF_BN_OLDVAL(bn) >= VF_BN_VAL(*m)) ==> __CPROVER_return_value == EINVAL)
+__CPROVER_ensures(__CPROVER_return_value == 0 ==> VF_BN_WF(*bn))
+;
+
 #endif /* !VF_REPLAY */
 #endif
